@@ -18,9 +18,9 @@ ASSUMPTIONS = [
     'parameters equal to a knot or farther than 1e-5 from every knot (the binary search snaps the domain end within 1e-5)',
     'affine knot range k -> alpha*k + beta with alpha > 0 symbolic',
     'GEOMDL_CACHE_SIZE is a decimal string of 1..4 digits or unset',
-    'num_procs in {2,4,8} (multiprocessing.Pool schedules) is NOT covered: OS processes are not symbolically executable (see DESIGN section 5)',
+    'num_procs in {2,4,8}: the worker pool is MODELLED in the symbolic run (core.SerialPool: order-preserving map, every task on a copy of its argument, result copied back, i.e. what pickling does); OS scheduling and worker-private module state are not symbolically executable and only exercised by the float replay of a counterexample, which uses real processes',
 ]
-OUTSIDE = ['num_procs > 1', 'degrees > 3', 'cache sizes that are not decimal integers']
+OUTSIDE = ['scheduling / worker-private state of real worker processes (pool model only)', 'render() with num_procs (needs a visualisation backend)', 'degrees > 3', 'cache sizes that are not decimal integers']
 BOUNDS = {'quick': 'span function / evaluator / normalize_kv pairs on curves p<=3, surfaces degrees<=2, one volume; CrossHair on the lru_cache maxsize expressions; subprocess runs of a C04 instance under GEOMDL_CACHE_SIZE in {unset,1,16,1024}',
           'thorough': 'more patterns, surfaces (3,2), derivative orders to 3'}
 
@@ -112,9 +112,71 @@ def h_affine(cx, sp, order=1):
                 cx.eq('skl[%d][%d]' % (k, l), list(dn[k][l]), [x * alphas[0] ** k * alphas[1] ** l for x in dr[k][l]])
 
 
+def _two_surfaces(cx):
+    out = []
+    for i, sp in enumerate((spec('surface', (1, 1), ((), ()), rational=False), spec('surface', (1, 2), ((), ()), rational=True))):
+        sizes = [len(k) - d - 1 for k, d in zip(sp['kvs'], sp['degs'])]
+        P = cx.points('P%d_' % i, sizes[0] * sizes[1], 3)
+        W = cx.reals('w%d_' % i, sizes[0] * sizes[1], positive=True) if sp['rational'] else None
+        out.append(geo.make_surface(cx, sp['degs'][0], sp['degs'][1], cx.consts(sp['kvs'][0]), cx.consts(sp['kvs'][1]), sizes[0], sizes[1], P, W, normalize_kv=True))
+    return out
+
+
+def h_procs_tessellate(cx, num_procs, nsurf=2):
+    """SurfaceContainer.tessellate(num_procs=k) == tessellate() (worker pool modelled by core.SerialPool)"""
+    multi = geo.M('multi')
+    surfs = _two_surfaces(cx)[:nsurf]
+
+    def mesh(np_):
+        mc = multi.SurfaceContainer()
+        for s in surfs:
+            mc.add(shapes.clone(s))
+        mc.sample_size_u, mc.sample_size_v = 4, 5
+        if np_ == 1:
+            mc.tessellate()
+        else:
+            mc.tessellate(num_procs=np_)
+        return {'vertices': [list(v.data) for v in mc.vertices], 'vertex_ids': [v.id for v in mc.vertices],
+                'faces': [list(f.data) for f in mc.faces], 'face_ids': [f.id for f in mc.faces],
+                'evalpts': [list(p) for p in mc.evalpts], 'elements': len(mc)}
+    a, b = mesh(1), mesh(num_procs)
+    cx.check('mesh_nonempty', len(a['vertices']) >= 4 * nsurf and len(a['faces']) >= 2 * nsurf, '%d vertices %d faces' % (len(a['vertices']), len(a['faces'])))
+    for k in sorted(a):
+        if k in ('vertices', 'evalpts'):
+            cx.eq(k, b[k], a[k])
+        else:
+            cx.check(k, b[k] == a[k], '%s differs: %s vs %s' % (k, str(b[k])[:80], str(a[k])[:80]))
+
+
+def h_procs_voxelize(cx, num_procs, sz):
+    """voxelize(num_procs=k) == voxelize() (worker pool modelled by core.SerialPool)"""
+    VX = geo.M('voxelize')
+    B = geo.M('BSpline')
+    z = cx.real('z', lo=F(1, 10), hi=F(9, 10))
+
+    def run(np_):
+        s = B.Surface()
+        s.degree_u, s.degree_v = 1, 1
+        s.set_ctrlpts([[0, 0, 0], [0, 1, 0], [1, 0, 1], [1, 1, z]], 2, 2)
+        s.knotvector_u = [0, 0, 1, 1]
+        s.knotvector_v = [0, 0, 1, 1]
+        s.sample_size = 3
+        return VX.voxelize(s, grid_size=sz) if np_ == 1 else VX.voxelize(s, grid_size=sz, num_procs=np_)
+    (g1, f1), (g2, f2) = run(1), run(num_procs)
+    cx.check('grid_size', len(g1) == sz[0] * sz[1] * sz[2] == len(f1))
+    cx.eq('grid', [[list(c[0]), list(c[1])] for c in g2], [[list(c[0]), list(c[1])] for c in g1])
+    cx.check('filled', [int(bool(x)) for x in f2] == [int(bool(x)) for x in f1], 'filled differs: %s vs %s' % (list(f2), list(f1)))
+
+
 def instances(tier):
     out = []
     quick = tier == 'quick'
+    for np_ in ((2, 4) if quick else (2, 4, 8)):
+        out.append(inst('container tessellate num_procs=%d' % np_, h_procs_tessellate, timeout=900, num_procs=np_))
+    if not quick:
+        out.append(inst('container tessellate 1 surface num_procs=4', h_procs_tessellate, timeout=900, num_procs=4, nsurf=1))
+    for np_, sz in ([(2, (2, 2, 2)), (4, (3, 2, 2)), (8, (3, 2, 2))] if quick else [(2, (2, 2, 2)), (4, (2, 2, 2)), (8, (2, 2, 2)), (2, (3, 2, 2)), (4, (3, 2, 2)), (8, (3, 2, 2)), (2, (3, 3, 3)), (4, (3, 3, 3))]):
+        out.append(inst('voxelize %s num_procs=%d' % (sz, np_), h_procs_voxelize, timeout=1800, num_procs=np_, sz=sz))
 
     def add(kind, fn, sp, timeout=900, **kw):
         nm = ('%s %s %s' % (spec_name(sp), kind, ' '.join('%s=%s' % kv for kv in sorted(kw.items())))).strip()
